@@ -5,6 +5,8 @@ package rotation
 import (
 	"context"
 	"errors"
+	"google.golang.org/protobuf/types/known/timestamppb"
+	"time"
 
 	"github.com/hashicorp/nodeenrollment"
 	"github.com/hashicorp/nodeenrollment/types"
@@ -98,5 +100,59 @@ func VerifC13RotateFaults() {
 	} else {
 		vf.Reach("error")
 		vf.Assert("error-hands-out-nothing", out == nil)
+	}
+}
+
+func init() { VfHarnesses["VerifC13NodeRotationFaults"] = VerifC13NodeRotationFaults }
+
+// C13, node credential rotation: a valid rotation request for record R1 over a faulty storage. A failed call hands
+// out nothing and leaves R1 and the other node's record exactly as they were; a successful one has persisted the
+// new record.
+func VerifC13NodeRotationFaults() {
+	ctx := context.Background()
+	inner := &vfs.Storage{}
+	t0 := vf.Now()
+	vf.ShortScenario(t0, time.Second)
+	vfs.StoreRoots(ctx, inner, t0)
+	r1, m := vfParty{2, 0, 10}, vfParty{4, 2, 12}
+	for _, r := range []*types.NodeInformation{r1.record("n1", "state-1"), m.record("n2", "state-m")} {
+		if err := r.Store(ctx, inner); err != nil {
+			panic(err)
+		}
+	}
+	info := &types.FetchNodeCredentialsInfo{CertificatePublicKeyPkix: vf.Pkix(5), CertificatePublicKeyType: types.KEYTYPE_ED25519,
+		Nonce: []byte("the-rotated-credentials-nonce-32"), EncryptionPublicKeyBytes: vf.X25519Pub(5), EncryptionPublicKeyType: types.KEYTYPE_X25519,
+		NotBefore: timestamppb.New(t0.Add(-time.Hour)), NotAfter: timestamppb.New(t0.Add(time.Hour))}
+	bundle, err := proto.Marshal(info)
+	if err != nil {
+		panic(err)
+	}
+	payload, err := nodeenrollment.EncryptMessage(ctx, &types.FetchNodeCredentialsRequest{Bundle: bundle, BundleSignature: vf.SigBy(5, bundle)}, r1.creds())
+	if err != nil {
+		panic(err)
+	}
+	snap := inner.Snapshot()
+	const maxOps = 10
+	f := &vfs.Faulty{Inner: inner, FailAt: vf.Int("fail-at", -1, maxOps), ErrKind: vf.Int("error-kind", 0, 2)}
+	resp, err := RotateNodeCredentials(ctx, f, &types.RotateNodeCredentialsRequest{CertificatePublicKeyPkix: vf.Pkix(2), EncryptedFetchNodeCredentialsRequest: payload})
+	vf.Assert("op-count-within-bound", f.N <= maxOps)
+	if f.Hit {
+		vf.Reach("fault-hit")
+	}
+	newId, _ := nodeenrollment.KeyIdFromPkix(vf.Pkix(5))
+	if err == nil {
+		vf.Reach("rotated")
+		vf.Assert("success-implies-new-record-persisted", inner.Has(vfs.KindNode, newId))
+		vf.Assert("reply-handed-out", resp != nil && len(resp.EncryptedFetchNodeCredentialsResponse) > 0)
+	} else {
+		vf.Reach("failed")
+		vf.Assert("failure-hands-out-nothing", resp == nil)
+	}
+	vf.Assert("no-fault-means-success", vf.Implies(!f.Hit, err == nil))
+	// whatever happened, the existing records of this node and of the other node are byte-for-byte what they were
+	for _, e := range snap {
+		if e.Kind == vfs.KindNode {
+			vf.Assert("existing-records-untouched", vf.And(inner.Has(vfs.KindNode, e.Id), vf.EqBytes(inner.Get(vfs.KindNode, e.Id), e.Data)))
+		}
 	}
 }
